@@ -67,10 +67,23 @@ type linkSpec struct {
 	remote int // peer table index 1..5
 }
 
+// earlyOp is a handler call the fake transport makes while the controller is
+// still starting up: from a goroutine of its own started inside the
+// constructor callback (the call may block until the controller is up).
+type earlyOp struct {
+	lost   bool
+	li     int
+	yields int // runtime.Gosched calls of the goroutine before the handler call
+}
+
 type caseSpec struct {
 	id      int
 	links   []linkSpec
 	scripts [][]op
+	// start-up phase (empty in about half of the cases)
+	early        [2][]earlyOp // per node
+	ctorYields   [2]int       // runtime.Gosched calls of the constructor after starting the goroutines, before it returns
+	earlyWatches []op         // directives added before the transport controllers exist
 }
 
 func (cs *caseSpec) sig() string {
@@ -85,7 +98,51 @@ func (cs *caseSpec) sig() string {
 			sb.WriteByte(' ')
 		}
 	}
+	sb.WriteString(cs.earlyString())
 	return sb.String()
+}
+
+// earlyString renders the start-up phase ("" if there is none).
+func (cs *caseSpec) earlyString() string {
+	if len(cs.early[0])+len(cs.early[1])+len(cs.earlyWatches) == 0 {
+		return ""
+	}
+	var sb strings.Builder
+	sb.WriteString("|startup:")
+	for _, o := range cs.earlyWatches {
+		sb.WriteString(" " + o.String())
+	}
+	for ni := range cs.early {
+		if len(cs.early[ni]) == 0 {
+			continue
+		}
+		fmt.Fprintf(&sb, " ctor%d[", ni)
+		for _, e := range cs.early[ni] {
+			k := "E"
+			if e.lost {
+				k = "L"
+			}
+			fmt.Fprintf(&sb, "%s%d~%d ", k, e.li, e.yields)
+		}
+		fmt.Fprintf(&sb, "then yield %d]", cs.ctorYields[ni])
+	}
+	return sb.String()
+}
+
+func genWatch(rng interface{ IntN(int) int }, o *op) {
+	o.kind = opWatch
+	switch y := rng.IntN(10); {
+	case y < 4:
+		o.src = 0
+	case y < 8:
+		o.src = 1 + rng.IntN(2)
+	default:
+		o.src = 3 + rng.IntN(3) // a source that is not a local identity
+	}
+	o.dst = 1 + rng.IntN(5)
+	if rng.IntN(40) == 0 {
+		o.dst = 0 // invalid: empty target
+	}
 }
 
 func genCase(rng interface{ IntN(int) int }, id int) *caseSpec {
@@ -103,6 +160,47 @@ func genCase(rng interface{ IntN(int) int }, id int) *caseSpec {
 		}
 		cs.links = append(cs.links, ls)
 	}
+	if rng.IntN(2) == 0 {
+		// start-up phase: the transports report link events from inside their
+		// constructors, directives exist before the controllers do
+		for node := 0; node < 2; node++ {
+			if rng.IntN(3) == 0 {
+				continue
+			}
+			if rng.IntN(2) == 0 {
+				cs.links = append(cs.links, linkSpec{node: node, uuid: 1 + rng.IntN(4), remote: 1 + node}) // a self link
+			}
+			var mine, selfs []int
+			for i, l := range cs.links {
+				if l.node == node {
+					mine = append(mine, i)
+					if l.remote == 1+node {
+						selfs = append(selfs, i)
+					}
+				}
+			}
+			if len(mine) == 0 {
+				continue
+			}
+			for k := 1 + rng.IntN(4); k > 0; k-- {
+				e := earlyOp{lost: rng.IntN(6) == 0, li: mine[rng.IntN(len(mine))], yields: rng.IntN(4)}
+				if len(selfs) > 0 && rng.IntN(2) == 0 {
+					e.li = selfs[rng.IntN(len(selfs))]
+				}
+				cs.early[node] = append(cs.early[node], e)
+			}
+			cs.ctorYields[node] = []int{0, 0, 1, 3, 10, 50}[rng.IntN(6)]
+		}
+		for k := rng.IntN(4); k > 0; k-- {
+			var o op
+			genWatch(rng, &o)
+			if rng.IntN(2) == 0 {
+				o.dst = 1 + rng.IntN(2) // a local identity: the request a self link would answer
+			}
+			cs.earlyWatches = append(cs.earlyWatches, o)
+		}
+		nl = len(cs.links)
+	}
 	g := 1 + rng.IntN(3)
 	cs.scripts = make([][]op, g)
 	nops := 20 + rng.IntN(25)
@@ -114,19 +212,7 @@ func genCase(rng interface{ IntN(int) int }, id int) *caseSpec {
 		case x < 50:
 			o.kind = opLost
 		case x < 68:
-			o.kind = opWatch
-			switch y := rng.IntN(10); {
-			case y < 4:
-				o.src = 0
-			case y < 8:
-				o.src = 1 + rng.IntN(2)
-			default:
-				o.src = 3 + rng.IntN(3) // a source that is not a local identity
-			}
-			o.dst = 1 + rng.IntN(5)
-			if rng.IntN(40) == 0 {
-				o.dst = 0 // invalid: empty target
-			}
+			genWatch(rng, &o)
 		case x < 73:
 			o.kind = opRelease
 		case x < 88:
@@ -184,7 +270,7 @@ func (c *caseRun) violation(key, what string, extra map[string]any) {
 		}
 		ss = append(ss, sb.String())
 	}
-	w := map[string]any{"case": c.cs.id, "links": ls, "scripts": ss,
+	w := map[string]any{"case": c.cs.id, "links": ls, "scripts": ss, "startup_phase(watches before the controllers exist; per node: handler calls from goroutines started inside the transport constructor)": c.cs.earlyString(),
 		"peer_table": map[string]string{"1": g6link.Short(c.peers[1]) + " (local, node 0)", "2": g6link.Short(c.peers[2]) + " (local, node 1)", "3": g6link.Short(c.peers[3]), "4": g6link.Short(c.peers[4]), "5": g6link.Short(c.peers[5])}}
 	for k, v := range extra {
 		w[k] = v
@@ -199,6 +285,27 @@ func (c *caseRun) nodeOf(l *g6link.Link) int {
 	return 0
 }
 
+// addWatch adds the EstablishLinkWithPeer directive of a watch op (nil if the bus refused it).
+func (c *caseRun) addWatch(o op) *g6link.Watch {
+	wa, err := c.w.NewWatch(c.peers[o.src], c.peers[o.dst])
+	if err != nil {
+		c.r.Count("directive_rejected", 1)
+		if o.dst != 0 {
+			c.r.Inconclusive("AddDirective failed: " + err.Error())
+		}
+		return nil
+	}
+	if o.dst == 0 {
+		// an empty target is invalid; whatever happens, no value may ever be yielded (checked with the others)
+		c.r.Count("directive_empty_target_accepted", 1)
+	}
+	c.mu.Lock()
+	c.watches = append(c.watches, wa)
+	c.mu.Unlock()
+	c.r.Count("directives_added", 1)
+	return wa
+}
+
 func (c *caseRun) runScript(gi int, s []op) {
 	var mine []*g6link.Watch
 	for oi, o := range s {
@@ -210,23 +317,11 @@ func (c *caseRun) runScript(gi int, s []op) {
 			l := c.links[o.li]
 			c.w.Nodes[c.nodeOf(l)].Lost(l)
 		case opWatch:
-			wa, err := c.w.NewWatch(c.peers[o.src], c.peers[o.dst])
-			if err != nil {
-				c.r.Count("directive_rejected", 1)
-				if o.dst != 0 {
-					c.r.Inconclusive("AddDirective failed: " + err.Error())
-				}
+			wa := c.addWatch(o)
+			if wa == nil {
 				continue
 			}
-			if o.dst == 0 {
-				// an empty target is invalid; whatever happens, no value may ever be yielded (checked with the others)
-				c.r.Count("directive_empty_target_accepted", 1)
-			}
 			mine = append(mine, wa)
-			c.mu.Lock()
-			c.watches = append(c.watches, wa)
-			c.mu.Unlock()
-			c.r.Count("directives_added", 1)
 		case opRelease:
 			if len(mine) > 0 {
 				k := o.wi % len(mine)
@@ -294,8 +389,55 @@ func (c *caseRun) runScript(gi int, s []op) {
 
 func runCase(r *vf.Run, pool []*keys.Identity, cs *caseSpec) {
 	g6link.RunCase(func() {
-		w, err := g6link.NewWorld(context.Background(), pool[:2])
+		c := &caseRun{r: r, cs: cs, injected: map[protocol.ID]*g6link.Link{}, injOK: map[protocol.ID]bool{}}
+		c.peers = []peer.ID{"", pool[0].ID, pool[1].ID, pool[2].ID, pool[3].ID, pool[4].ID}
+		var earlyWG sync.WaitGroup
+		w, err := g6link.NewWorldOpts(context.Background(), pool[:2], &g6link.WorldOpts{
+			PreStart: func(w *g6link.World) {
+				c.w = w
+				for i, ls := range cs.links {
+					c.links = append(c.links, w.Nodes[ls.node].NewLink(fmt.Sprintf("k%d", i), uint64(ls.uuid), c.peers[ls.remote]))
+				}
+				// requests that exist before the transport controllers do
+				for _, o := range cs.earlyWatches {
+					if c.addWatch(o) != nil {
+						r.Count("startup_directives_added_before_the_controllers", 1)
+					}
+				}
+			},
+			InCtor: func(n *g6link.Node) {
+				// we are inside the constructor callback, in the controller's
+				// Execute: the transport "is already listening" and reports
+				// link events, each from a goroutine of its own
+				ni := 0
+				if n.Ident.ID == c.peers[2] {
+					ni = 1
+				}
+				for _, e := range cs.early[ni] {
+					if e.lost {
+						n.LostAsync(c.links[e.li], e.yields, &earlyWG)
+						r.Count("startup_lost_calls_from_inside_the_constructor", 1)
+					} else {
+						n.EstAsync(c.links[e.li], e.yields, &earlyWG)
+						r.Count("startup_est_calls_from_inside_the_constructor", 1)
+						if c.links[e.li].Remote == c.links[e.li].Local {
+							r.Count("startup_est_calls_from_inside_the_constructor_self_link", 1)
+						}
+					}
+				}
+				for i := 0; i < cs.ctorYields[ni]; i++ {
+					runtime.Gosched()
+				}
+			},
+		})
+		defer func() {
+			for _, l := range c.links {
+				l.Close()
+				l.Forget()
+			}
+		}()
 		if err != nil {
+			earlyWG.Wait()
 			r.Inconclusive("cannot build world: " + err.Error())
 			return
 		}
@@ -305,17 +447,7 @@ func runCase(r *vf.Run, pool []*keys.Identity, cs *caseSpec) {
 			r.Inconclusive("cannot add stream catcher: " + err.Error())
 			return
 		}
-		c := &caseRun{r: r, cs: cs, w: w, sc: sc, injected: map[protocol.ID]*g6link.Link{}, injOK: map[protocol.ID]bool{}}
-		c.peers = []peer.ID{"", pool[0].ID, pool[1].ID, pool[2].ID, pool[3].ID, pool[4].ID}
-		for i, ls := range cs.links {
-			c.links = append(c.links, w.Nodes[ls.node].NewLink(fmt.Sprintf("k%d", i), uint64(ls.uuid), c.peers[ls.remote]))
-		}
-		defer func() {
-			for _, l := range c.links {
-				l.Close()
-				l.Forget()
-			}
-		}()
+		c.sc = sc
 
 		start := make(chan struct{})
 		var wg sync.WaitGroup
@@ -329,6 +461,8 @@ func runCase(r *vf.Run, pool []*keys.Identity, cs *caseSpec) {
 		}
 		close(start)
 		wg.Wait()
+		// the start-up calls return once the controller has its transport (it has: NewWorldOpts waited for it)
+		earlyWG.Wait()
 
 		progress := func() int64 {
 			p := sc.Count()
@@ -342,8 +476,105 @@ func runCase(r *vf.Run, pool []*keys.Identity, cs *caseSpec) {
 			c.mu.Unlock()
 			return p
 		}
+		// judge compares everything observed with the harness's ground truth.
+		// models == nil (the hook log is incomplete, so no reference table can
+		// be replayed): only the clauses that need no table are judged.
+		judge := func(models []*g6link.RefTable) (nvals, ndel, nopen int) {
+			c.mu.Lock()
+			watches := append([]*g6link.Watch(nil), c.watches...)
+			c.mu.Unlock()
+			// (a) every value ever yielded
+			for _, wa := range watches {
+				for _, e := range wa.Log() {
+					if !e.Added {
+						r.Count("values_removed", 1)
+						continue
+					}
+					nvals++
+					r.Count("values_added", 1)
+					req := fmt.Sprintf("EstablishLinkWithPeer(%q -> %s)", g6link.Short(wa.Src), g6link.Short(wa.Dst))
+					if wa.Src == "" {
+						req = fmt.Sprintf("EstablishLinkWithPeer(any -> %s)", g6link.Short(wa.Dst))
+						r.Count("values_for_empty_source", 1)
+					}
+					f := e.Link
+					switch {
+					case f == nil:
+						c.violation("value/unknown-link", req+" yielded a value that is not a link delivered by the harness", nil)
+					case f.Remote == f.Local || e.Remote == e.Local:
+						c.violation("value/self-link-yielded", req+" yielded the self link "+f.String(), nil)
+					case f.Remote != wa.Dst || e.Remote != wa.Dst:
+						c.violation("value/wrong-remote-peer", fmt.Sprintf("%s yielded %s (value reports remote %s)", req, f, g6link.Short(e.Remote)), nil)
+					case wa.Src != "" && (f.Local != wa.Src || e.Local != wa.Src):
+						c.violation("value/wrong-local-peer", fmt.Sprintf("%s yielded %s (value reports local %s)", req, f, g6link.Short(e.Local)), nil)
+					case e.Local != f.Local || e.UUID != f.UUID:
+						c.violation("value/misreports-link", fmt.Sprintf("%s: value for %s reports local %s uuid %d", req, f, g6link.Short(e.Local), e.UUID), nil)
+					case models == nil:
+					default:
+						ni := c.nodeOf(f)
+						// (a link reported during start-up and applied while the controller was not
+						// running is refused by this controller; C04 does not demand that, so a
+						// controller that keeps such a link is not flagged here)
+						if !models[ni].EverPresentUpTo(e.SeqAt[ni], f) && !models[ni].WasRefusedDown(f) {
+							c.violation("value/never-established", fmt.Sprintf("%s yielded %s which the controller had not accepted as established when the value appeared (after %d events)", req, f, e.SeqAt[ni]), nil)
+						}
+					}
+				}
+			}
+			// (d) incoming streams
+			c.mu.Lock()
+			inj := c.injected
+			opens := c.opens
+			c.mu.Unlock()
+			for _, d := range sc.Delivered() {
+				l := inj[d.Proto]
+				ndel++
+				r.Count("streams_delivered", 1)
+				switch {
+				case l == nil || d.DirProto != d.Proto:
+					c.violation("stream/unknown-protocol", fmt.Sprintf("a stream with protocol %q (directive %q) was delivered that the harness never injected", d.Proto, d.DirProto), nil)
+				case d.PeerID != l.Remote:
+					c.violation("stream/wrong-peer", fmt.Sprintf("stream injected on %s reports peer %s", l, g6link.Short(d.PeerID)), nil)
+				case d.DirRemote != l.Remote || d.DirLocal != l.Local:
+					c.violation("stream/wrong-directive-peers", fmt.Sprintf("stream injected on %s was offered as HandleMountedStream(local %s, remote %s)", l, g6link.Short(d.DirLocal), g6link.Short(d.DirRemote)), nil)
+				case d.Link != l || d.LinkRem != l.Remote || d.LinkLocal != l.Local:
+					c.violation("stream/wrong-link", fmt.Sprintf("stream injected on %s reports link %v (%s -> %s)", l, d.Link, g6link.Short(d.LinkLocal), g6link.Short(d.LinkRem)), nil)
+				case l.Remote == l.Local:
+					c.violation("stream/from-self-link", fmt.Sprintf("a stream was delivered from the self link %s", l), nil)
+				case models == nil:
+				case !models[c.nodeOf(l)].EverPresentUpTo(1<<30, l) && !models[c.nodeOf(l)].WasRefusedDown(l):
+					c.violation("stream/from-unestablished-link", fmt.Sprintf("a stream was delivered from %s which was never accepted as established", l), nil)
+				}
+			}
+			// outgoing streams
+			for _, o := range opens {
+				if o.err != nil {
+					r.Count("open_stream_errors", 1)
+					continue
+				}
+				nopen++
+				r.Count("streams_opened", 1)
+				f := o.val.Link
+				switch {
+				case f == nil:
+					// already reported as value/unknown-link
+				case o.peer != f.Remote:
+					c.violation("stream/wrong-peer", fmt.Sprintf("stream opened on %s reports peer %s", f, g6link.Short(o.peer)), nil)
+				case o.link != f || o.lRem != f.Remote || o.lLoc != f.Local:
+					c.violation("stream/wrong-link", fmt.Sprintf("stream opened on the value for %s reports link %v (%s -> %s)", f, o.link, g6link.Short(o.lLoc), g6link.Short(o.lRem)), nil)
+				case !o.seen:
+					c.violation("stream/opened-elsewhere", fmt.Sprintf("stream opened on the value for %s: the establish header for %q did not arrive on that link", f, o.pid), nil)
+				case o.peer != o.wa.Dst:
+					c.violation("stream/wrong-peer-for-request", fmt.Sprintf("stream opened through a value of %s reports peer %s", o.wa, g6link.Short(o.peer)), nil)
+				}
+			}
+			return
+		}
 		res, _ := g6link.Settle(func() bool { return w.Nodes[0].AllApplied() && w.Nodes[1].AllApplied() }, progress)
 		if res != g6link.Reached {
+			// no reference table without a complete hook log; what was
+			// yielded and delivered is still judged against the ground truth
+			judge(nil)
 			r.Inconclusive(fmt.Sprintf("case %d: handler calls never reached their hooks", cs.id))
 			r.Case(cs.sig(), false)
 			return
@@ -353,11 +584,15 @@ func runCase(r *vf.Run, pool []*keys.Identity, cs *caseSpec) {
 		for ni, n := range w.Nodes {
 			for _, ev := range n.Events(0) {
 				if ev.Link == nil {
+					judge(nil)
 					r.Inconclusive("hook event for a foreign link")
 					return
 				}
-				models[ni].Apply(ev.Kind, ev.Link)
+				models[ni].ApplyEvent(ev)
 				r.Count("hook_events_"+ev.Kind, 1)
+				if ev.Down() {
+					r.Count("hook_events_"+ev.Kind+"_applied_while_the_controller_was_not_running", 1)
+				}
 			}
 		}
 		expected := func(wa *g6link.Watch) []*g6link.Link {
@@ -406,6 +641,7 @@ func runCase(r *vf.Run, pool []*keys.Identity, cs *caseSpec) {
 		}, progress)
 		switch res {
 		case g6link.Undecided:
+			judge(nil)
 			r.Inconclusive(fmt.Sprintf("case %d: watchdog expired before the system settled", cs.id))
 			r.Case(cs.sig(), false)
 			return
@@ -422,89 +658,7 @@ func runCase(r *vf.Run, pool []*keys.Identity, cs *caseSpec) {
 			r.Count("settled_points", 1)
 		}
 
-		// (a) every value ever yielded
-		nvals := 0
-		for _, wa := range watches {
-			for _, e := range wa.Log() {
-				if !e.Added {
-					r.Count("values_removed", 1)
-					continue
-				}
-				nvals++
-				r.Count("values_added", 1)
-				req := fmt.Sprintf("EstablishLinkWithPeer(%q -> %s)", g6link.Short(wa.Src), g6link.Short(wa.Dst))
-				if wa.Src == "" {
-					req = fmt.Sprintf("EstablishLinkWithPeer(any -> %s)", g6link.Short(wa.Dst))
-					r.Count("values_for_empty_source", 1)
-				}
-				f := e.Link
-				switch {
-				case f == nil:
-					c.violation("value/unknown-link", req+" yielded a value that is not a link delivered by the harness", nil)
-				case f.Remote == f.Local || e.Remote == e.Local:
-					c.violation("value/self-link-yielded", req+" yielded the self link "+f.String(), nil)
-				case f.Remote != wa.Dst || e.Remote != wa.Dst:
-					c.violation("value/wrong-remote-peer", fmt.Sprintf("%s yielded %s (value reports remote %s)", req, f, g6link.Short(e.Remote)), nil)
-				case wa.Src != "" && (f.Local != wa.Src || e.Local != wa.Src):
-					c.violation("value/wrong-local-peer", fmt.Sprintf("%s yielded %s (value reports local %s)", req, f, g6link.Short(e.Local)), nil)
-				case e.Local != f.Local || e.UUID != f.UUID:
-					c.violation("value/misreports-link", fmt.Sprintf("%s: value for %s reports local %s uuid %d", req, f, g6link.Short(e.Local), e.UUID), nil)
-				default:
-					ni := c.nodeOf(f)
-					if !models[ni].EverPresentUpTo(e.SeqAt[ni], f) {
-						c.violation("value/never-established", fmt.Sprintf("%s yielded %s which the controller had not accepted as established when the value appeared (after %d events)", req, f, e.SeqAt[ni]), nil)
-					}
-				}
-			}
-		}
-		// (d) incoming streams
-		c.mu.Lock()
-		inj := c.injected
-		opens := c.opens
-		c.mu.Unlock()
-		ndel := 0
-		for _, d := range sc.Delivered() {
-			l := inj[d.Proto]
-			ndel++
-			r.Count("streams_delivered", 1)
-			switch {
-			case l == nil || d.DirProto != d.Proto:
-				c.violation("stream/unknown-protocol", fmt.Sprintf("a stream with protocol %q (directive %q) was delivered that the harness never injected", d.Proto, d.DirProto), nil)
-			case d.PeerID != l.Remote:
-				c.violation("stream/wrong-peer", fmt.Sprintf("stream injected on %s reports peer %s", l, g6link.Short(d.PeerID)), nil)
-			case d.DirRemote != l.Remote || d.DirLocal != l.Local:
-				c.violation("stream/wrong-directive-peers", fmt.Sprintf("stream injected on %s was offered as HandleMountedStream(local %s, remote %s)", l, g6link.Short(d.DirLocal), g6link.Short(d.DirRemote)), nil)
-			case d.Link != l || d.LinkRem != l.Remote || d.LinkLocal != l.Local:
-				c.violation("stream/wrong-link", fmt.Sprintf("stream injected on %s reports link %v (%s -> %s)", l, d.Link, g6link.Short(d.LinkLocal), g6link.Short(d.LinkRem)), nil)
-			case l.Remote == l.Local:
-				c.violation("stream/from-self-link", fmt.Sprintf("a stream was delivered from the self link %s", l), nil)
-			case !models[c.nodeOf(l)].EverPresentUpTo(1<<30, l):
-				c.violation("stream/from-unestablished-link", fmt.Sprintf("a stream was delivered from %s which was never accepted as established", l), nil)
-			}
-		}
-		// outgoing streams
-		nopen := 0
-		for _, o := range opens {
-			if o.err != nil {
-				r.Count("open_stream_errors", 1)
-				continue
-			}
-			nopen++
-			r.Count("streams_opened", 1)
-			f := o.val.Link
-			switch {
-			case f == nil:
-				// already reported as value/unknown-link
-			case o.peer != f.Remote:
-				c.violation("stream/wrong-peer", fmt.Sprintf("stream opened on %s reports peer %s", f, g6link.Short(o.peer)), nil)
-			case o.link != f || o.lRem != f.Remote || o.lLoc != f.Local:
-				c.violation("stream/wrong-link", fmt.Sprintf("stream opened on the value for %s reports link %v (%s -> %s)", f, o.link, g6link.Short(o.lLoc), g6link.Short(o.lRem)), nil)
-			case !o.seen:
-				c.violation("stream/opened-elsewhere", fmt.Sprintf("stream opened on the value for %s: the establish header for %q did not arrive on that link", f, o.pid), nil)
-			case o.peer != o.wa.Dst:
-				c.violation("stream/wrong-peer-for-request", fmt.Sprintf("stream opened through a value of %s reports peer %s", o.wa, g6link.Short(o.peer)), nil)
-			}
-		}
+		nvals, ndel, nopen := judge(models)
 		nself := 0
 		for _, m := range models {
 			for _, why := range m.MustClose {
@@ -540,7 +694,7 @@ func runCase(r *vf.Run, pool []*keys.Identity, cs *caseSpec) {
 func TestC04(t *testing.T) {
 	r := vf.Start(t, "C04", vf.Exploration)
 	defer r.Finish()
-	r.SetRule("Each case: a fresh bus with two real transport controllers (local identities 1, 2), 5-10 fake links (node, uuid from 4 shared values, remote = one of 3 remote identities / the other local identity / the local identity itself), and a PRNG script of 20-44 operations split over 1-3 goroutines: Est(link), Lost(link), add EstablishLinkWithPeer(S, D) with S in {empty, local 1, local 2, a non-local identity} and D in {any of the 5 identities, rarely empty}, release a directive, inject an incoming stream (complete establish header) into a link, open a stream through a currently attached value. A case is non-trivial when at least one value was yielded and at least one stream was delivered or opened; distinct = distinct (links, scripts). Oracle (harness ground truth, values mapped back to the fake link by a serial carried in GetRemoteTransportUUID): every value ever yielded for (S, D) is a harness link with remote == D, local == S when S is given, remote != local, that the controller had accepted as established before the value appeared; a self link reported as established has Close called (judged in a settled state) and never yields values or streams; every delivered / opened stream reports its link's remote peer, the HandleMountedStream directive carries the link's local and remote peers, and an opened stream's header arrives on the very link the value stands for.")
+	r.SetRule("Each case: a fresh bus with two real transport controllers (local identities 1, 2), 5-10 fake links (node, uuid from 4 shared values, remote = one of 3 remote identities / the other local identity / the local identity itself), and a PRNG script of 20-44 operations split over 1-3 goroutines: Est(link), Lost(link), add EstablishLinkWithPeer(S, D) with S in {empty, local 1, local 2, a non-local identity} and D in {any of the 5 identities, rarely empty}, release a directive, inject an incoming stream (complete establish header) into a link, open a stream through a currently attached value. About half of the cases have a start-up phase in addition: 0-3 directives are added before the transport controllers exist, and the fake transport of a node reports 1-4 link events (Est / Lost of its links, self links preferred, one more self link added to the case half of the time) from inside the constructor callback the controller invokes while starting, each from a goroutine of its own after 0-3 yields (the calls may block until the controller is up), the constructor yielding 0-50 times before it returns; whether such a call is applied before or after the controller got its peer id is left to the scheduler and recorded from the hook snapshot (a link reported established while the controller is not running is refused: it must be closed and is never in the reference table). A case is non-trivial when at least one value was yielded and at least one stream was delivered or opened; distinct = distinct (links, scripts). Oracle (harness ground truth, values mapped back to the fake link by a serial carried in GetRemoteTransportUUID): every value ever yielded for (S, D) is a harness link with remote == D, local == S when S is given, remote != local, that the controller had accepted as established before the value appeared; a self link reported as established has Close called (judged in a settled state) and never yields values or streams; every delivered / opened stream reports its link's remote peer, the HandleMountedStream directive carries the link's local and remote peers, and an opened stream's header arrives on the very link the value stands for. When a handler call never reaches its hook (no reference table can be replayed) the case is inconclusive, but the clauses that need no table (remote / local / self / stream peers) are still judged.")
 	r.Assume("a fake link's local peer is the peer of the transport that reports it")
 	r.Assume("completeness (an established link IS yielded) and removal of values of lost links are not part of C04; they are checked by C06")
 	pool := keys.Pool(r.Rand("c04-keys"), 5)
